@@ -380,7 +380,7 @@ def thread_history(job):
 def run_thread_histories(ctx):
     quick = ctx.tier == 'quick'
     nhist = 12 if quick else 120
-    watchdog = 20 if quick else 40
+    watchdog = 60 if quick else 90      # wall clock: generous, a loaded machine must not look like a hang
     jobs = []
     for hid in range(nhist):
         steps = draw_thread_history(ctx.rng, common.REPO, hid % 3)
@@ -767,7 +767,7 @@ def build_jobs(ctx):
     rng = ctx.rng
     quick = ctx.tier == 'quick'
     jobs = []
-    watchdog = 30 if quick else 60
+    watchdog = 90 if quick else 120     # wall clock: generous, a loaded machine must not look like a hang
     wdir = ctx.wd()
     if quick:
         examples = QUICK_EXAMPLES
